@@ -173,10 +173,19 @@ READERS = ['bytes_kw', 'bytearray_kw', 'memoryview_kw', 'memoryview_wide_kw', 'm
 
 @st.composite
 def read_case(draw, tier):
-    nbytes = draw(st.integers(1, 40)) if draw(st.integers(0, 9)) else draw(st.integers(500, 1200))
-    src = draw(bits_of_len(8 * nbytes))
-    total = len(src)
-    off = draw(st.sampled_from([None, 0, 1, 3, 7, 8, 9, 16]) | st.integers(0, total))
+    big = draw(st.integers(0, 7)) == 0
+    if big:
+        # sources longer than one or two mmap pages, windows starting on / next to a page boundary
+        nbytes = draw(st.sampled_from([4097, 4200, 8192, 8200, 8300, 12290]))
+        unit = draw(bits_of_len(61))
+        src = (unit * (8 * nbytes // 61 + 1))[:8 * nbytes]
+        total = len(src)
+        off = draw(st.sampled_from([32768, 32768, 32769, 32776, 32760, 32767, 65536, 65537, 65544, 98304, None, 0]))
+    else:
+        nbytes = draw(st.integers(1, 40)) if draw(st.integers(0, 9)) else draw(st.integers(500, 1200))
+        src = draw(bits_of_len(8 * nbytes))
+        total = len(src)
+        off = draw(st.sampled_from([None, 0, 1, 3, 7, 8, 9, 16]) | st.integers(0, total))
     off = min(off, total) if off is not None else None
     o = off or 0
     ln = draw(st.sampled_from([None, total - o, max(total - o - 1, 0), max(total - o - 8, 0), 0, 1, 8]) | st.integers(0, total - o))
@@ -219,7 +228,21 @@ def run_read(case):
             else:
                 x = c(bytes=mv, **kw)
         elif reader == 'bytesio':
-            x = c(io.BytesIO(b), **kw) if kw else c(io.BytesIO(b))
+            # the whole buffer is the source, wherever its stream position happens to be
+            how = (case['item'] + total) % 6
+            f = io.BytesIO(b)
+            if how == 1:
+                f = io.BytesIO()
+                f.write(b)                       # just written: position at the end
+            elif how == 2:
+                f.read(min(3, len(b)))           # partly read by the caller
+            elif how == 3:
+                c(f)                             # already used once as a whole initialiser
+            elif how == 4 and total >= 16:
+                c(f, offset=8, length=8)         # already used once with a window
+            elif how == 5:
+                bs.Bits(bytes=b).tofile(f)       # filled by tofile()
+            x = c(f, **kw) if kw else c(f)
         elif reader in ('filename', 'pathlib'):
             p = tmp.new(b)
             if reader == 'pathlib':
